@@ -337,34 +337,60 @@ CLAIMED['C16'] = dict(
                   "keys, the two linear scans, the wildcard regex) and of index, under a hand-written model of the "
                   "apply_meta wrappers; extracted-model/implementation differential run; a linear-scan oracle on "
                   "the implementation",
-        text="Machine-checked (Coq 8.16, 21 theorems in coq/Props/C16.v, all closed under the global context), "
+        text="Machine-checked (Coq 8.16, 39 theorems in coq/Props/C16.v, all closed under the global context), "
              "for vectors/tables of ANY size and all scalar cells. FULL: C16_bisect_loop (CPython's bisect_right "
              "loop returns the partition point of any defined monotone test; fuel hi-lo+1 suffices), C16_bisect "
              "(on cells whose ExcelCmp keys are sorted by the model's <= between lo and hi: a[k] <= v before the "
-             "result, v < a[k] from it on), C16_key_order_transitive (numbers < text < logicals < errors, "
-             "case-folded text; x<a, a<=b => x<b); C16_match0 (MATCH(v,a,0) = find_first of 'not an error cell, "
-             "v's type, equality test'), C16_find_first (first hit / #N/A iff none), C16_match0_test_plain / "
-             "_wildcard (key equality, or the ?/* glob); C16_match_position (every match type: #N/A or a "
-             "position inside the vector); C16_lookup_is_index_match_v/_h (VLOOKUP/HLOOKUP = the error MATCH "
-             "gives, else INDEX(t, MATCH(...), k), every rectangular table); C16_transpose (VLOOKUP on t = "
-             "HLOOKUP on transpose t, all k incl. out of range); C16_bounds_vlookup/hlookup_low (k<=0: #VALUE!), "
-             "_high (k beyond: #REF!), C16_bounds_in_table (otherwise #N/A or a cell of column k: never a cell "
-             "outside); C16_index_cell / _negative (#VALUE!) / _beyond (#REF!). PARTIAL: C16_match1_partial (a "
-             "position returned by match type 1 holds a non-blank cell of v's type; with C16_bisect: everything "
-             "before the partition point is <= v. Missing: 'largest value <= v of v's type, #N/A iff none' as one "
-             "statement through the back-off loop), C16_match_m1_partial (a position returned by match type -1 "
-             "holds a non-error cell of v's type that is >= v. Missing: minimality on descending data). Both "
-             "missing parts are judged by the oracle on every sorted vector of each run. REFUTED in the faithful "
+             "result, v < a[k] from it on), C16_key_order_transitive / _le_transitive / _lt_is_not_ge (numbers < "
+             "text < logicals < errors, case-folded text: <= is transitive on the keys of all scalars, < is the "
+             "negation of the converse <=); C16_match1_sorted + C16_match1_sorted_na_iff (vector = blanks ++ "
+             "non-blank cells with adjacent keys ascending, duplicates allowed ++ blanks, either run of blanks "
+             "possibly empty, no blank inside: MATCH(v,a,1) returns a position holding a non-blank cell of v's "
+             "type that is <= v and >= every such cell, the LAST position of a repeated maximum, and #N/A iff "
+             "there is no such cell; every scalar lookup value); C16_match_m1_sorted (blanks ++ descending "
+             "non-blank cells ++ blanks, blank cells excluded exactly when the lookup value is a number = the "
+             "known finding blank-as-0: MATCH(v,a,-1) returns a position holding the smallest cell >= v among the "
+             "non-error cells of v's type - the first cell equal to v, else the last cell holding the smallest "
+             "value above v - and #N/A iff none) and C16_match_m1_scan (the same needing only that the cells the "
+             "scan compares descend); C16_match0 (MATCH(v,a,0) = find_first of 'not an error cell, v's type, "
+             "equality test'), C16_find_first (first hit / #N/A iff none), C16_match0_test_plain / _wildcard (key "
+             "equality, or the ?/* glob), C16_glob_declarative (the model's regex matcher = the declarative ?/* "
+             "relation Glob of C15 on text without a line feed) and C16_match0_wildcard (pattern with a wildcard "
+             "and no other regex metacharacter, no line feed in the text cells: the first position whose cell is "
+             "text, not an error code, and matches the lower-cased pattern, else #N/A; '~' is an ordinary "
+             "character = known finding tilde); C16_match_position (every match type: #N/A or a position inside "
+             "the vector); C16_match_range_row / _column (the regenerated f_match searches a single row as it is, "
+             "any other range through its first column: the match_ theorems are theorems on MATCH); "
+             "C16_lookup_is_index_match_v/_h (VLOOKUP/HLOOKUP = the error MATCH gives, else "
+             "INDEX(t, MATCH(...), k), every rectangular table); C16_lookup_array (array-form LOOKUP of the "
+             "regenerated f_lookup = INDEX in the last column at MATCH(v, first column, 1) when width <= height "
+             "- square tables included - else INDEX in the last row at MATCH(v, first row, 1)), "
+             "C16_lookup_vector_col / _row (LOOKUP(v,T,rr) = INDEX(rr, MATCH(v, search vector, 1)) for a result "
+             "vector that is a column of >= 2 cells or a row and at least as long as the search vector; shorter "
+             "= known finding short-result-range); C16_transpose (VLOOKUP on t = HLOOKUP on transpose t, all k "
+             "incl. out of range); C16_bounds_vlookup/hlookup_low (k<=0: #VALUE!), _high (k beyond: #REF!), "
+             "C16_bounds_in_table (otherwise #N/A or a cell of column k: never a cell outside); C16_index_cell / "
+             "_negative (#VALUE!) / _beyond (#REF!); C16_wrapped_match / _vlookup / _hlookup / _lookup (the model of the "
+             "apply_meta wrappers hands a scalar non-error lookup value with an integer index / match type and a "
+             "logical range_lookup through to the regenerated body unchanged, whatever the table holds) and "
+             "C16_error_lookup_value (an error-code lookup value is returned). KEPT (weaker, but for unsorted vectors too): "
+             "C16_match1_partial (a position returned by match type 1 holds a non-blank cell of v's type), "
+             "C16_match_m1_partial (a position returned by match type -1 holds a non-error cell of v's type that "
+             "is >= v); no clause of the property is left partial. REFUTED in the faithful "
              "model (advisory files, built as extra targets): Refuted/C16_blank_cell.v (match types 0/-1 find a "
              "blank cell as the number 0, type 1 does not), Refuted/C16_wildcard_tilde.v ('a~*' does not escape "
-             "the asterisk). CORRESPONDENCE-ONLY (no theorem): LOOKUP (vector/array form, result_range), the "
-             "apply_meta wrappers (CSE lookup value, number coercion of the index, error propagation), INDEX with "
-             "a 0/omitted index (whole row/column), match_type coercion. Outside the model (Unmodelled, oracle "
+             "the asterisk), Refuted/C16_lookup_short.v (a result vector shorter than the search vector: IndexError "
+             "where INDEX gives #REF!). CORRESPONDENCE-ONLY (no theorem): LOOKUP with a 2-D or non-list result range "
+             "(#N/A), the apply_meta wrappers on other argument shapes (CSE lookup value, number coercion of a "
+             "non-integer index, error codes in the index), INDEX with a 0 index (whole row/column), match_type coercion. "
+             "Outside the model (Unmodelled, oracle "
              "only): wildcard patterns containing other regex metacharacters. Every quick run compares the "
-             "extracted model with the real functions called through apply_meta on ~77k distinct calls (MATCH "
+             "extracted model with the real functions called through apply_meta on ~80k distinct calls (MATCH "
              "over all vectors up to length 2 and sampled up to length 8 over a 9/18-value mixed pool, sorted "
-             "and unsorted, blanks at the ends x 17 lookup values x match types; _match and bisect_right "
-             "directly; VLOOKUP/HLOOKUP over tables up to 6x4 x every index -1..size+2 x range_lookup; LOOKUP; "
+             "and unsorted, blanks at the ends, plus a fixed list of edge vectors - trailing 0/''/FALSE, repeated "
+             "maxima/minima, all blank - x 17 lookup values x match types; _match and bisect_right "
+             "directly; VLOOKUP/HLOOKUP over tables up to 6x4 x every index -1..size+2 x range_lookup; LOOKUP "
+             "incl. fixed square tables and longer result vectors; "
              "INDEX over every row/column index), 0 divergences, and evaluates the property's linear-scan "
              "definition on the implementation; the thorough tier enumerates all vectors up to length 5.",
         design_ref="DESIGN.md 5 C16",
